@@ -301,7 +301,9 @@ def fmt_edge(e):
 
 
 def kind_of(kinds, e):
-    k = kinds.get("%s:%d" % e[1])
+    k = kinds.get("%s:%d>%s:%d" % (e[1][0], e[1][1], e[2][0], e[2][1]))
+    if k is None:
+        k = kinds.get("%s:%d" % e[1])
     if k is None:
         return ("unlabelled", "-")
     if isinstance(k, str):
@@ -576,20 +578,42 @@ def main(tier, seed, t0):
 # reduction of a failing project (used for new signatures and for preparing minimal replays)
 
 def _to_lines(case):
+    """{file: [(text, line label or None, uid)]} plus the edge-specific labels as (uid call line, uid callee def line, label)"""
     kinds = case.get("kinds", {})
     out = {}
+    uid = {}
+    n = 0
     for rel, text in case["files"].items():
-        out[rel] = [(t, kinds.get("%s:%d" % (rel, i + 1))) for i, t in enumerate(text.splitlines())]
+        ls = []
+        for i, t in enumerate(text.splitlines()):
+            n += 1
+            uid["%s:%d" % (rel, i + 1)] = n
+            ls.append((t, kinds.get("%s:%d" % (rel, i + 1)), n))
+        out[rel] = ls
+    edge_labels = []
+    for k, v in kinds.items():
+        if ">" in k:
+            a, b = k.split(">")
+            if a in uid and b in uid:
+                edge_labels.append((uid[a], uid[b], v))
+    out["\0edge"] = edge_labels
     return out
 
 
 def _from_lines(lines, main, p2):
     files, kinds = {}, {}
+    pos = {}
     for rel, ls in lines.items():
-        files[rel] = "\n".join(t for t, _ in ls) + "\n"
-        for i, (t, k) in enumerate(ls):
+        if rel == "\0edge":
+            continue
+        files[rel] = "\n".join(t for t, _, _ in ls) + "\n"
+        for i, (t, k, u) in enumerate(ls):
+            pos[u] = "%s:%d" % (rel, i + 1)
             if k is not None:
                 kinds["%s:%d" % (rel, i + 1)] = k
+    for a, b, v in lines.get("\0edge", []):
+        if a in pos and b in pos:
+            kinds["%s>%s" % (pos[a], pos[b])] = v
     return {"files": files, "main": main, "kinds": kinds, "p2": p2}
 
 
@@ -597,7 +621,7 @@ def _units(ls):
     """removable units of one file: (start, end) index ranges = a line plus the following deeper-indented lines"""
     units = []
     n = len(ls)
-    for i, (t, _) in enumerate(ls):
+    for i, (t, _, _) in enumerate(ls):
         if not t.strip():
             continue
         ind = len(t) - len(t.lstrip())
@@ -641,13 +665,15 @@ def reduce_case(case, sig, max_lian_runs=120, log=None):
         changed = False
         # whole files first
         for rel in sorted(lines):
-            if rel == main or len(lines) == 1:
+            if rel == main or rel == "\0edge":
                 continue
             cand = {k: v for k, v in lines.items() if k != rel}
             if fails(cand):
                 lines = cand
                 changed = True
         for rel in sorted(lines):
+            if rel == "\0edge":
+                continue
             units = sorted(_units(lines[rel]), key=lambda u: (-(u[1] - u[0]), u[0]))
             removed = []
             for (a, b) in units:
